@@ -6,6 +6,7 @@ import (
 	"bufio"
 	"fmt"
 	"os"
+	"runtime"
 	"strconv"
 	"strings"
 )
@@ -137,6 +138,15 @@ func ReadCases(path string) [][]Group {
 		res = append(res, gs)
 	}
 	return res
+}
+
+// GoID returns the id of the calling goroutine (harness only: parsed from the stack header).
+func GoID() int64 {
+	var buf [64]byte
+	n := runtime.Stack(buf[:], false)
+	var id int64
+	fmt.Sscanf(string(buf[:n]), "goroutine %d ", &id)
+	return id
 }
 
 func EnvSeed() uint64 {
